@@ -158,6 +158,14 @@ def c09(tier, seed):
                                                               '--resident=1', '--walk=1'], cpus=8, scale=s))
     out.append(_c('big-qsbr', 'qsbr', 'plain', 'big', 'C09', ['--rounds=%d' % (14 * s), '--res-calls=8', '--res=1', '--upd=2',
                                                               '--resident=1', '--walk=1'], cpus=8, scale=s))
+    # pthread_create() of the partition helper threads fails with EAGAIN now and then (after 0, 1, 2... helpers have
+    # started): the documented fallback must process every leftover partition in the caller's thread
+    out.append(_c('big-memb-eagain', 'memb', 'plain', 'big', 'C09', ['--rounds=%d' % (14 * s), '--res-calls=10', '--res=1', '--upd=2',
+                                                                     '--resident=1', '--walk=1', '--f-create-eagain=0.35'],
+                  cpus=8, scale=s))
+    out.append(_c('big-memb-eagain-lowpart', 'memb', 'plain', 'big', 'C09',
+                  ['--rounds=%d' % (10 * s), '--res-calls=10', '--res=1', '--upd=2', '--resident=1', '--walk=1',
+                   '--tun-part-order=8', '--f-create-eagain=0.3'], cpus=8, scale=s))
     for fl, var, rounds in (('memb', 'plain', 300), ('qsbr', 'plain', 150), ('memb', 'asan', 120)):
         out.append(_c('destroy-%s%s' % (fl, '' if var == 'plain' else '-' + var), fl, var, 'destroy', 'C09',
                       ['--rounds=%d' % (rounds * s), '--upd=3', '--upd-ops=2500', '--pop-hi=900', '--res=1', '--tun-commit-order=2',
